@@ -10,19 +10,28 @@ use dlt_core::parse::*;
 use serde_json::{json, Value as J};
 use std::panic::{catch_unwind, AssertUnwindSafe};
 
+/// DltFilterConfig -> ProcessedDltFilterConfig under catch_unwind (`borrowed`: which of the two conversions)
+pub fn conv(cfg: &DltFilterConfig, borrowed: bool) -> Result<ProcessedDltFilterConfig, ()> {
+    let c = cfg.clone();
+    catch_unwind(move || -> ProcessedDltFilterConfig { if borrowed { (&c).into() } else { c.into() } }).map_err(|_| ())
+}
+pub fn conv_opt(cfg: Option<&DltFilterConfig>) -> Result<Option<ProcessedDltFilterConfig>, ()> {
+    match cfg { None => Ok(None), Some(c) => conv(c, true).map(Some) }
+}
+pub fn convpanic(cfg: Option<&DltFilterConfig>) -> J { json!({"op": "convpanic", "flt": proj::opt(&cfg, |c| proj::filter_config(c)), "res": {"v": "panic"}}) }
 pub fn parse_res(buf: &[u8], flt: Option<&ProcessedDltFilterConfig>, sh: bool, with_rest: bool) -> J {
     let r = catch_unwind(AssertUnwindSafe(|| dlt_message(buf, flt, sh)));
     proj::parse_result(buf.len(), &r, with_rest)
 }
 /// C03 only: a filter built directly (public fields), with a minimum level the conversions never produce
 pub fn parse_event_direct(buf: &[u8], cfg: &DltFilterConfig, invalid_level: u8, sh: bool) -> J {
-    let mut processed: ProcessedDltFilterConfig = cfg.into();
+    let mut processed: ProcessedDltFilterConfig = match conv(cfg, true) { Ok(p) => p, Err(()) => return convpanic(Some(cfg)) };
     processed.min_log_level = Some(LogLevel::Invalid(invalid_level));
     json!({"op": "parse", "buf": proj::bytes(buf), "sh": sh, "flt": [proj::filter_config(cfg)], "direct": invalid_level,
            "res": parse_res(buf, Some(&processed), sh, false)})
 }
 pub fn parse_event(buf: &[u8], cfg: Option<&DltFilterConfig>, sh: bool) -> J {
-    let processed: Option<ProcessedDltFilterConfig> = cfg.map(|c| c.into());
+    let processed: Option<ProcessedDltFilterConfig> = match conv_opt(cfg) { Ok(p) => p, Err(()) => return convpanic(cfg) };
     json!({"op": "parse", "buf": proj::bytes(buf), "sh": sh, "flt": proj::opt(&cfg, |c| proj::filter_config(c)),
            "res": parse_res(buf, processed.as_ref(), sh, false)})
 }
@@ -131,7 +140,7 @@ fn frame_res(res: &J) -> J {
     json!({"v": v, "consumed": consumed, "n": n})
 }
 pub fn frame_event(buf: &[u8], cfg: Option<&DltFilterConfig>, sh: bool, api: &str) -> J {
-    let processed: Option<ProcessedDltFilterConfig> = cfg.map(|c| c.into());
+    let processed: Option<ProcessedDltFilterConfig> = match conv_opt(cfg) { Ok(p) => p, Err(()) => return convpanic(cfg) };
     let res = if api == "parse" { parse_res(buf, processed.as_ref(), sh, false) } else { consume_res(buf) };
     json!({"op": "frame", "api": api, "buf": proj::bytes(buf), "sh": sh, "flt": proj::opt(&cfg, |c| proj::filter_config(c)), "res": frame_res(&res)})
 }
@@ -145,12 +154,12 @@ fn nopanic(mut e: J) -> J {
     e
 }
 pub fn filter_event(buf: &[u8], cfg: &DltFilterConfig, sh: bool, borrowed: bool) -> J {
-    let processed: ProcessedDltFilterConfig = if borrowed { cfg.into() } else { cfg.clone().into() };
+    let processed: ProcessedDltFilterConfig = match conv(cfg, borrowed) { Ok(p) => p, Err(()) => return convpanic(Some(cfg)) };
     json!({"op": "filter", "buf": proj::bytes(buf), "sh": sh, "flt": [proj::filter_config(cfg)],
            "res": parse_res(buf, Some(&processed), sh, false), "res0": parse_res(buf, None, sh, false)})
 }
 pub fn junkparse_event(junk: &[u8], msg: &[u8], sfx: &[u8], cfg: Option<&DltFilterConfig>) -> J {
-    let processed: Option<ProcessedDltFilterConfig> = cfg.map(|c| c.into());
+    let processed: Option<ProcessedDltFilterConfig> = match conv_opt(cfg) { Ok(p) => p, Err(()) => return convpanic(cfg) };
     let mut with = junk.to_vec();
     with.extend(msg);
     with.extend(sfx);
@@ -166,7 +175,7 @@ pub fn prefixes_event(b: &[u8], sh: bool, ks: &[usize], calls: &mut u64) -> J {
 pub fn prefixes_event_f(b: &[u8], sh: bool, ks: &[usize], calls: &mut u64, cfg: Option<&DltFilterConfig>) -> J {
     let cuts: Vec<J> = ks.iter().map(|k| { *calls += 1; parse_res(&b[..*k], None, sh, false) }).collect();
     let ccuts: Vec<J> = if sh { ks.iter().map(|k| { *calls += 1; consume_res(&b[..*k]) }).collect() } else { vec![] };
-    let processed: Option<ProcessedDltFilterConfig> = cfg.map(|c| c.into());
+    let processed: Option<ProcessedDltFilterConfig> = match conv_opt(cfg) { Ok(p) => p, Err(()) => return convpanic(cfg) };
     let fcuts: Vec<J> = match &processed { Some(p) => ks.iter().map(|k| { *calls += 1; parse_res(&b[..*k], Some(p), sh, false) }).collect(), None => vec![] };
     json!({"op": "prefixes", "full": proj::bytes(b), "sh": sh, "ks": ks, "cuts": cuts, "ccuts": ccuts, "flt": proj::opt(&cfg, |c| proj::filter_config(c)), "fcuts": fcuts})
 }
@@ -304,6 +313,7 @@ pub fn record(mode: &str, seed: u64, n: usize, out: &mut Out) {
         }
         // C03: every entry point on hostile input; every returned message is re-serialised and measured
         "hostile" => {
+            out.keep_convpanic = true;
             for i in 0..n {
                 let big = if i % 10 == 9 { 70000 } else if i % 5 == 4 { 2000 } else { 24 };
                 let inputs = hostile_inputs(&mut r, big);
@@ -384,6 +394,7 @@ pub fn record(mode: &str, seed: u64, n: usize, out: &mut Out) {
                     let n = *r.pick(&[0usize, 1, 127, 128, 253, 254, 255, 256, 257, 300, 1000, 4000]);
                     cands.push((gen::handmade_text_message(&mut r, n, sh), sh));
                 }
+                if i % 6 == 4 { cands.push((gen::handmade_float_message(&mut r, sh), sh)); }
                 if b.len() > 20000 {
                     if let Some(pm) = item_of(&b, sh) { out.calls += 4; out.emit(stable_event(&pm, sh), true); }
                     continue;
@@ -430,6 +441,18 @@ pub fn record(mode: &str, seed: u64, n: usize, out: &mut Out) {
         }
         // C06: storage-header search, junk in front of a message, junk between the messages of a stream
         "junk" => {
+            {
+                // the search on inputs with far more than one maximal message behind the first pattern (whole-file buffers):
+                // the slice handed out is the input from that occurrence on, all of it
+                for behind in [65551usize, 65552, 70000, 200000] {
+                    let lead = r.below(9) as usize;
+                    let mut x: Vec<u8> = vec![b'j'; lead];
+                    x.extend(b"DLT\x01");
+                    x.extend((0..behind - 4).map(|i| [b'p', 0u8, b'D', 0x7F][(i / 5) % 4]));
+                    out.calls += 1;
+                    out.emit(forward_event(&x), true);
+                }
+            }
             {
                 // junk ++ message filling a buffer of k x 64 KiB + {0, 7, 15} bytes exactly (lengths that wrap to 0..15 in 16 bits)
                 let m = gen::message(&mut r, &MsgOpts { storage: Some(true), big: 8, max_args: 1 });
@@ -562,6 +585,7 @@ pub fn record(mode: &str, seed: u64, n: usize, out: &mut Out) {
         }
         // C09: filtered parse against unfiltered parse, through both conversions of the configuration
         "filter" => {
+            out.keep_convpanic = true;
             for i in 0..n {
                 let m = gen::message(&mut r, &MsgOpts { storage: None, big: 12, max_args: 2 });
                 let sh = m.storage_header.is_some();
@@ -733,7 +757,7 @@ fn corrupt_payload(r: &mut Rng, b: &[u8], sh: bool) -> Vec<u8> {
 }
 /// one session: repeat the call on the remainder until it does not return Ok (or 64 steps)
 fn session_event(stream: &[u8], sh: bool, cfg: Option<&DltFilterConfig>, api: &str, calls: &mut u64) -> J {
-    let processed: Option<ProcessedDltFilterConfig> = cfg.map(|c| c.into());
+    let processed: Option<ProcessedDltFilterConfig> = match conv_opt(cfg) { Ok(p) => p, Err(()) => return convpanic(cfg) };
     let mut pos = 0usize;
     let mut steps = vec![];
     for _ in 0..64 {
